@@ -61,6 +61,14 @@ def run(ctx):
             if variant >= 2:
                 steps += [{"a": "write", "n": 5}]
             mscen.append({"id": "meekfault%d.%d" % (i, variant), "steps": steps, "front": variant == 3, "src": "fault"})
+    # a response body exactly as long as the application's read buffer, shorter, longer - then more: sizes chosen by the
+    # peer must not crash the reader (io.Copy reads with 32 KiB buffers)
+    for i, n in enumerate([1, 100, 32768, 65536] if quick else [1, 2, 100, 4096, 32768, 65535, 65536]):
+        for j, rb in enumerate(([n], [n, 1], [max(1, n - 1)], [n + 1])):
+            mscen.append({"id": "meeksize%d.%d" % (i, j), "rbuf": rb, "front": False, "src": "sizes",
+                          "steps": [{"a": "write", "n": 1}, {"a": "respond", "n": n}, {"a": "read", "n": 0}, {"a": "pause", "n": 20}, {"a": "respond", "n": 4},
+                                    {"a": "read", "n": 0}, {"a": "read", "n": 0}, {"a": "pause", "n": 20}, {"a": "respond", "n": n}, {"a": "read", "n": 0},
+                                    {"a": "read", "n": 0}, {"a": "pause", "n": 20}]})
     mbin = ctx.go_build("./cmd/c16")
     mtr = ctx.exec_scenarios(mbin, mscen, "meekfault", shards=8, timeout=1500)
     mtr = ctx.drop_dead(mtr)
@@ -71,8 +79,30 @@ def run(ctx):
         t2 = ctx.exec_scenarios(mbin, [tr["scenario"]], "meekfault-re", timeout=600)
         rej = ctx.validate("MeekTrace", "MeekTrace.cfg", t2, label="re-validation")
         return rej[0] if rej else None
-    ctx.settle(mrej, mreexec, lambda tr: "meek_lite endpoint after the server dropped the connection: rejected at event %s: %s (scenario %s)" % (
+    ctx.settle(mrej, mreexec, lambda tr: "meek_lite endpoint under faults / peer-chosen sizes: rejected at event %s: %s (scenario %s)" % (
         tr["reject"]["at_event_index"], json.dumps(tr["reject"]["event"])[:300], json.dumps(tr["scenario"])[:300]), attempts=2)
+    # an obfs4 bridge after a REJECTED connection (replayed handshake, wrong hour): the next clients must still be served -
+    # a handler that is blocked inside the handshake code (not in a Read, not returned) is a wedge.  Driven by cmd/c04 and
+    # judged by Obfs4ReplayTrace; only wedges are reported here (everything else about these histories is C04's)
+    rscen = []
+    for i in range(4 if quick else 40):
+        steps = [{"a": "new", "h": 1, "off": 0}, {"a": "submit", "h": 1}, {"a": "submit", "h": 1}, {"a": "new", "h": 2, "off": [0, 1, -1][i % 3]}, {"a": "submit", "h": 2},
+                 {"a": "new", "h": 3, "off": [3, -2, 2][i % 3]}, {"a": "submit", "h": 3}, {"a": "new", "h": 4, "off": 0}, {"a": "submit", "h": 4},
+                 {"a": "burst", "h": 5, "off": 0, "n": 4}, {"a": "new", "h": 6, "off": 0}, {"a": "submit", "h": 6}]
+        rscen.append({"id": "afterreject%d" % i, "steps": steps})
+    rbin = ctx.go_build("./cmd/c04")
+    rtr = ctx.exec_scenarios(rbin, rscen, "afterreject", shards=4, timeout=1500)
+    rtr = ctx.drop_dead(rtr)
+    rrej = [t for t in ctx.validate("Obfs4ReplayTrace", "Obfs4ReplayTrace.cfg", rtr, label="obfs4 bridge after rejected connections")
+            if any(e.get("event") == "Wedged" for e in t["events"])]
+    ctx.log("obfs4 bridge after rejected connections: %d histories, %d wedged" % (len(rtr), len(rrej)))
+
+    def rreexec(tr):
+        t2 = ctx.exec_scenarios(rbin, [tr["scenario"]], "afterreject-re", timeout=600)
+        rej = [t for t in ctx.validate("Obfs4ReplayTrace", "Obfs4ReplayTrace.cfg", t2, label="re-validation") if any(e.get("event") == "Wedged" for e in t["events"])]
+        return rej[0] if rej else None
+    ctx.settle(rrej, rreexec, lambda tr: "obfs4 server wedged after a rejected connection: %s (scenario %s)" % (
+        json.dumps(tr["reject"]["event"])[:300], json.dumps(tr["scenario"])[:300]), attempts=2)
     binary = ctx.go_build("./cmd/c10")
     traces = ctx.exec_scenarios(binary, scen, "c10", shards=15, timeout=3000)
     if len(traces) != len(scen) and not any(t.get("crashed") for t in traces):
@@ -103,6 +133,18 @@ def run(ctx):
 
 def replay(ctx, path):
     v = json.load(open(path))
+    sid = str(v["scenario"].get("id", ""))
+    if sid.startswith("meek"):
+        mbin = ctx.go_build("./cmd/c16")
+        for t in ctx.validate("MeekTrace", "MeekTrace.cfg", ctx.exec_scenarios(mbin, [v["scenario"]], "replay", timeout=600), label="replay"):
+            ctx.report_violation(t, "replayed scenario rejected")
+        return ctx.finish("model_checking")
+    if sid.startswith("afterreject"):
+        rbin = ctx.go_build("./cmd/c04")
+        for t in ctx.validate("Obfs4ReplayTrace", "Obfs4ReplayTrace.cfg", ctx.exec_scenarios(rbin, [v["scenario"]], "replay", timeout=600), label="replay"):
+            if any(e.get("event") == "Wedged" for e in t["events"]):
+                ctx.report_violation(t, "replayed scenario rejected")
+        return ctx.finish("model_checking")
     binary = ctx.go_build("./cmd/c10")
     traces = ctx.exec_scenarios(binary, [v["scenario"]], "replay", timeout=600)
     for t in ctx.validate("EndpointTrace", "EndpointTrace.cfg", traces, label="replay"):
